@@ -60,7 +60,7 @@ def strat_paths():
             else:
                 p = [draw(sym) for _ in range(T)]
             paths.append(p)
-        margin = draw(st.sampled_from([1e-3, 0.05, 1.0, 5.0]))
+        margin = draw(st.sampled_from([1e-3, 3e-3, 0.01, 0.05, 1.0, 5.0]))
         seed = draw(st.integers(0, 2 ** 31 - 1))
         return C, paths, margin, seed
     return case()
@@ -71,7 +71,7 @@ def build_scores(C, paths, margin, seed):
     N, T = len(paths), len(paths[0])
     sc = np.empty((N, C, T), dtype=np.float32)
     for n, p in enumerate(paths):
-        top = rs.uniform(-3, 3, size=T).astype(np.float32)
+        top = (rs.uniform(-3, 3, size=T) * rs.choice([1.0, 1.0, 10.0])).astype(np.float32)      # magnitudes up to 30: float32 still separates 1e-3
         noise = rs.uniform(0, 4, size=(C, T)).astype(np.float32)
         sc[n] = top[None, :] - np.float32(margin) - noise
         for t, c in enumerate(p):
